@@ -26,6 +26,32 @@ import (
 // runBubble is the common frame: build Env, run body, close.
 func runBubble(t *testing.T, sc *gen.Scenario, trace bool, body func(e *Env)) *harness.Outcome {
 	out := &harness.Outcome{Shape: ModelShape(sc.Model)}
+	hung := false
+	defer func() {
+		// a hang in a run with injected faults: does the same scenario (same seed, hence the same ids,
+		// labels and schedule up to the first fault) hang without them? The answer is part of the
+		// signature, so that a hang that needs no fault (finding F12) and one that needs the fault are
+		// told apart.
+		if !hung || out.Violation == nil || out.Violation.Class != "hang" || sc.Knob("_recheck", 0) == 1 {
+			return
+		}
+		if sc.Knob("faults", 0) == 0 {
+			out.Violation.Sig += " faults_involved=no"
+			return
+		}
+		saved := map[string]int64{}
+		for k, v := range sc.Knobs {
+			saved[k] = v
+		}
+		sc.Knobs["faults"], sc.Knobs["_recheck"] = 0, 1
+		again := runBubble(t, sc, false, body)
+		sc.Knobs = saved
+		if again.Violation != nil && again.Violation.Class == "hang" {
+			out.Violation.Sig += " faults_involved=no"
+		} else {
+			out.Violation.Sig += " faults_involved=yes"
+		}
+	}()
 	msg := harness.Bubble(t, func(t *testing.T) {
 		e := Setup(t, sc, trace, out)
 		if e == nil {
@@ -42,6 +68,7 @@ func runBubble(t *testing.T, sc *gen.Scenario, trace bool, body func(e *Env)) *h
 			return
 		}
 		if e.Hung {
+			hung = true
 			return
 		}
 		// census: after the server is closed and a generous virtual wait, nothing that was started
